@@ -1,4 +1,5 @@
 import QVerif.Lemmas.RunnerLive
+import QVerif.Lemmas.RunnerRetry
 
 /-!
 # C08 — batching wrapper: every call completes under every schedule
@@ -28,5 +29,23 @@ theorem C08_no_deadlock (th0 : List TS) (h0 : ∀ x ∈ th0, x.loc = .idle) {s :
   obtain ⟨s1, hs, _⟩ := progress hc hd hnq
   obtain ⟨a, ha⟩ := step_complete s s1 hs
   exact ⟨a, s1, ha⟩
+
+/-- **Under ANY scheduler an execution can be long only by spinning in the two timed retry loops.**  Every step of the
+runner either strictly decreases the lexicographic measure `(callsLeft, Σ rank2)` or is an iteration step of the entry
+retry loop (`a0 a1 a7 a8 a9`: try-lock failed → release → timed wait → try again) or of the executor's drain loop
+(`g0 g1 g2 g3`: timed wait → re-notify → check again) that does not increase it; no fairness, strategy or invariant is
+assumed. -/
+theorem C08_step_decreases_or_retries {s s' : St} (a : Act) (h : step s a = some s') :
+    muLt2 s' s ∨ RetryStep s s' :=
+  nu_of_step (step_sound s s' a h)
+
+/-- **Bounded work.**  Every finite execution from `s` — any schedule, any timeouts, any failing batches — contains at most
+`weight s` steps that are not retry-loop iterations.  Hence a call can fail to return only if some thread iterates a timed
+retry loop forever; `C08_can_always_complete` shows that this is never forced, and each iteration waits for a notification
+or a timeout of 0.5 s (what remains for "every call returns" is that the scheduler does not starve the threads the
+retrying ones wait for — DESIGN.md, C08). -/
+theorem C08_bounded_work {s s' : St} (h : Run s s') : ∃ k, Path s s' k ∧ k + weight s' ≤ weight s := by
+  obtain ⟨k, hk⟩ := path_of_run h
+  exact ⟨k, hk, path_bound hk⟩
 
 end Runner
